@@ -31,8 +31,9 @@ ASSUMPTIONS = [
     "texts are compared modulo creation_metadata.tddafile, which the loader sets to the path it read from",
     'verdict maps are compared with ==; a verification that raises in one form must raise in all',
 ]
-REQUIRED_MONITORS = ['cycle:compared', 'contract:to_json', 'verdicts:forms_compared', 'unknown:compared', 'strict:checked']
-REQUIRED_CLASSES = ['source=discovered', 'source=discovered+rex', 'source=handwritten', 'cycles=3']
+REQUIRED_MONITORS = ['cycle:compared', 'contract:to_json', 'verdicts:forms_compared', 'unknown:compared', 'strict:checked',
+                     'verdicts:before_vs_after_cycle']
+REQUIRED_CLASSES = ['source=discovered', 'source=discovered+rex', 'source=handwritten', 'source=handwritten-objects', 'cycles=3']
 _installed = False
 JSON_LOG = []
 
@@ -77,11 +78,54 @@ def verdicts_of(df_spec, target):
         return {'__raises__': '%s@%s' % (m['exc'], m['where'])}, err.getvalue()
 
 
+def objects_from(cset):
+    """The constraint set as in-memory objects built with the constructors (date bounds as real
+    datetime objects), i.e. NOT through the loader - the 'before' side of a write/load cycle."""
+    from tdda.constraints import base as B
+    from vt.oracles import constraint_semantics as CS
+    fcs = []
+    for name, fc in cset['fields'].items():
+        is_date = fc.get('type') == 'date'
+        cons = []
+        for kind, value in fc.items():
+            ctor = B.FIELD_CONSTRAINTS_MAP.get(kind)
+            if not ctor:
+                continue
+            kw = {}
+            if isinstance(value, dict):
+                kw = {k: v for k, v in value.items() if k != 'value'}
+                value = value.get('value')
+            if is_date and kind in ('min', 'max') and isinstance(value, str):
+                dt, ns = CS.parse_dt(value)
+                import re
+                if re.search(r'[+-]\d\d:\d\d(:\d\d)?$', value) and len(value) > 10:
+                    import datetime
+                    dt = dt.replace(tzinfo=datetime.timezone.utc)
+                value = dt
+            cons.append(ctor(value, **kw))
+        if cons:
+            fcs.append(B.FieldConstraints(name, cons))
+    return B.DatasetConstraints(fcs)
+
+
+def verdicts_of_objects(df_spec, cons):
+    from tdda.constraints.pd.constraints import PandasConstraintVerifier, PandasVerification
+    err = io.StringIO()
+    try:
+        with contextlib.redirect_stderr(err), contextlib.redirect_stdout(err):
+            pdv = PandasConstraintVerifier(F.build_frame(df_spec), epsilon=None, type_checking=None)
+            v = pdv.verify(cons, VerificationClass=PandasVerification)
+        return {'%s|%s' % (n, k): bool(ok) for n, fv in v.fields.items() for k, ok in fv.items()}
+    except Exception as e:
+        m = common.short_tb(e)
+        return {'__raises__': '%s@%s' % (m['exc'], m['where'])}
+
+
 def gen_case(rng, i):
     spec = F.gen_frame(rng, pool=F.RECOGNISED)
-    src = ['discovered', 'discovered+rex', 'handwritten'][i % 3]
-    case = {'spec': spec, 'source': src, 'cycles': 1 + (i // 3) % 3}
-    if src == 'handwritten':
+    src = ['discovered', 'discovered+rex', 'handwritten', 'handwritten-objects'][i % 4]
+    case = {'spec': spec, 'source': src, 'cycles': 1 + (i // 4) % 3}
+    if src.startswith('handwritten'):
         cset = GC.constraint_set(rng, spec, missing_field=rng.random() < 0.2)
         if rng.random() < 0.5:
             cset, _ = GC.with_nulls(rng, cset, spec)
@@ -115,6 +159,8 @@ def run_case(ctx, case):
                 if cons is None:
                     rec.case(case, nontrivial=False, cls=cls)
                     return
+            elif case['source'] == 'handwritten-objects':
+                cons = objects_from(case['cset'])
             else:
                 cons = DatasetConstraints()
                 cons.initialize_from_dict(native_definite(copy.deepcopy(case['cset'])))
@@ -180,6 +226,16 @@ def run_case(ctx, case):
     forms = {'path': path, 'dict': d0, 'reserialised': json.loads(texts[-1])}
     res = {k: verdicts_of(spec, t)[0] for k, t in forms.items()}
     rec.event('verdicts:forms_compared')
+    if case['source'] in ('handwritten-objects', 'discovered', 'discovered+rex'):
+        # verdicts of the constraint objects as they were BEFORE being written
+        before = verdicts_of_objects(spec, cons)
+        rec.event('verdicts:before_vs_after_cycle')
+        if before != res['path'] and '__raises__' not in before:
+            keys = [k for k in set(before) | set(res['path']) if before.get(k) != res['path'].get(k)]
+            rec.violation('verdicts_change_after_write_load', {
+                'case': case, 'mech': {'kinds': sorted(set(k.split('|')[-1] for k in keys))[:4], 'source': case['source'].split('+')[0],
+                                       'precision_dict': any(isinstance(v, dict) for fc in json.loads(text0).get('fields', {}).values() for v in fc.values())},
+                'facts': {'keys': keys[:5], 'before': {k: before.get(k) for k in keys[:5]}, 'after': {k: res['path'].get(k) for k in keys[:5]}}})
     if not (res['path'] == res['dict'] == res['reserialised']):
         keys = [k for k in res['path'] if res['path'].get(k) != res['dict'].get(k) or res['path'].get(k) != res['reserialised'].get(k)]
         rec.violation('verdicts_differ_between_forms', {'case': case, 'mech': {'kinds': sorted(set(k.split('|')[-1] for k in keys))[:4]},
